@@ -342,7 +342,11 @@ func c10Random(r *Rng) C10Case {
 		if r.Chance(15) {
 			target += Pick(r, []string{"/", "//", "/extra", "%"})
 		}
-		if r.Chance(70) {
+		if r.Chance(12) {
+			// one key both as a scalar and as a nested object (deepObject parameters)
+			n := Pick(r, []string{"q", "id", "f", "a b"})
+			target += "?" + n + "[a]=1&" + n + "[a][b]=2&" + n + "[c][0]=x&" + n + "[c]=y"
+		} else if r.Chance(70) {
 			var qs []string
 			for k := 0; k < r.Intn(4); k++ {
 				qs = append(qs, Pick(r, []string{"q", "id", "f", "q[x]", "q[x][y]", "a b", "", "%zz"})+Pick(r, []string{"=", "", "[]="})+Pick(r, seg))
